@@ -4,7 +4,9 @@
 //   - chain cases: one request (origin-form, absolute-form, through an upstream proxy, inside a
 //     MITM session, or a CONNECT) carrying a generated Via chain, split over 1-3 field lines;
 //   - real loops: a proxy chained to itself and two instances A -> B -> A with the same configured
-//     name, each hop passing through a counting pass-through peer that also records what it relays.
+//     name, each hop passing through a counting pass-through peer that also records what it relays;
+//   - fleets (fleet.go): the same topologies over http / https / socks5 upstream links and plain / TLS
+//     listeners, with the instances built from configuration values in every way a program can obtain them.
 //
 // Observed: client status (+ X-Forwarder-Error), the Via field lines at the next hop, contact
 // counters of every origin / upstream peer, number of hops a loop makes.
@@ -48,11 +50,16 @@ const (
 // ---------------------------------------------------------------------------------------------
 
 type env struct {
-	mode    string // "direct" | "rules" | "upstream" | "mitm"
+	// "direct" | "rules" | "upstream" | "mitm" | "up-https" | "up-socks5" | "tls" | "tls-up-https":
+	// upstream proxy scheme (http / https / socks5) and listener kind (plain / TLS) of the instance
+	mode    string
+	tls     bool   // the instance's listener is a TLS listener (Protocol https)
+	upKind  string // "" | "http" | "https" | "socks5": scheme of the upstream proxy
 	proxy   *rig.Proxy
 	origin  *rig.Peer
 	tlsOrig *rig.Peer
 	up      *rig.Peer
+	socks   *rig.Socks5
 	ca      *rig.CA
 	cfg     reqmodel.Cfg
 	mu      sync.Mutex // one case at a time: contact counters are exact
@@ -71,7 +78,30 @@ func (e *env) close() {
 	}
 }
 
-func (e *env) peers() []*rig.Peer { return []*rig.Peer{e.origin, e.tlsOrig, e.up} }
+func (e *env) peers() []*rig.Peer {
+	ps := []*rig.Peer{e.origin, e.tlsOrig, e.up}
+	if e.socks != nil {
+		ps = append(ps, e.socks.Peer)
+	}
+	return ps
+}
+
+// modeShape: upstream proxy scheme and listener kind of a single-instance mode.
+func modeShape(mode string) (upKind string, tlsListener bool) {
+	switch mode {
+	case "upstream":
+		return "http", false
+	case "up-https":
+		return "https", false
+	case "up-socks5":
+		return "socks5", false
+	case "tls":
+		return "", true
+	case "tls-up-https":
+		return "https", true
+	}
+	return "", false
+}
 
 func hopResponder(w *rig.PeerConn, ex *rig.Exchange) bool {
 	if ex.Req.Method == "CONNECT" {
@@ -111,14 +141,24 @@ func requestRules(rules []string) ([]forwarder.RequestModifierFunc, error) {
 
 func newEnv(ctx *core.Ctx, mode string) (*env, error) {
 	e := &env{mode: mode}
+	e.upKind, e.tls = modeShape(mode)
 	var err error
 	if e.origin, err = rig.NewPeer("origin", hopResponder); err != nil {
 		return nil, err
 	}
-	if e.up, err = rig.NewPeer("upstream", hopResponder); err != nil {
+	if e.ca, err = rig.NewCA("verif origin CA"); err != nil {
 		return nil, err
 	}
-	if e.ca, err = rig.NewCA("verif origin CA"); err != nil {
+	if e.upKind == "https" {
+		upLeaf, lerr := e.ca.ValidLeaf("upstream.test")
+		if lerr != nil {
+			return nil, lerr
+		}
+		e.up, err = rig.NewTLSPeer("upstream", &tls.Config{Certificates: []tls.Certificate{upLeaf}}, hopResponder)
+	} else {
+		e.up, err = rig.NewPeer("upstream", hopResponder)
+	}
+	if err != nil {
 		return nil, err
 	}
 	leaf, err := e.ca.ValidLeaf("origin.test")
@@ -140,6 +180,21 @@ func newEnv(ctx *core.Ctx, mode string) (*env, error) {
 	if err != nil {
 		return nil, err
 	}
+	if e.upKind == "socks5" {
+		// the SOCKS5 server connects to the origin the proxy names: no HTTP message is addressed to it
+		e.socks, err = rig.NewSocks5("socks", func(target string) string {
+			switch target {
+			case "origin.test:80":
+				return e.origin.Addr
+			case "origin.test:443":
+				return e.tlsOrig.Addr
+			}
+			return ""
+		})
+		if err != nil {
+			return nil, err
+		}
+	}
 	opts := rig.ProxyOpts{
 		ConnectTo: []forwarder.HostPortPair{
 			rig.Route("origin.test", "80", e.origin.Addr),
@@ -152,21 +207,38 @@ func newEnv(ctx *core.Ctx, mode string) (*env, error) {
 			for _, m := range mods {
 				cfg.RequestModifiers = append(cfg.RequestModifiers, m)
 			}
-			switch mode {
-			case "upstream":
+			switch e.upKind {
+			case "http":
 				cfg.UpstreamProxy = rig.MustURL("http://upstream.test:3128")
-			case "mitm":
+			case "https":
+				cfg.UpstreamProxy = rig.MustURL("https://upstream.test:3128")
+			case "socks5":
+				cfg.UpstreamProxy = rig.MustURL("socks5://upstream.test:1080")
+			}
+			if mode == "mitm" {
 				cfg.MITM = forwarder.DefaultMITMConfig()
 				cfg.PromRegistry = prometheus.NewRegistry()
 			}
+			if e.tls {
+				cfg.Protocol = forwarder.HTTPSScheme // self-signed listener certificate
+				cfg.PromRegistry = prometheus.NewRegistry()
+			}
 		},
+	}
+	if e.socks != nil {
+		opts.ConnectTo = append(opts.ConnectTo, rig.Route("upstream.test", "1080", e.socks.Addr))
 	}
 	if e.proxy, err = rig.StartProxy(opts); err != nil {
 		return nil, err
 	}
 	e.cfg = reqmodel.Cfg{Name: proxyName, TimeAllowed: true, Rules: rules}
-	if mode == "upstream" {
+	switch e.upKind {
+	case "http":
 		e.cfg.Upstream = "upstream.test:3128"
+	case "https":
+		e.cfg.Upstream, e.cfg.UpstreamKind = "upstream.test:3128", "https"
+	case "socks5":
+		e.cfg.Upstream, e.cfg.UpstreamKind = "upstream.test:1080", "socks5"
 	}
 	tag, err := e.learnTag()
 	if err != nil {
@@ -199,6 +271,12 @@ func (e *env) open(inside bool) (*rig.Client, error) {
 	c, err := rig.Dial(e.proxy.Addr)
 	if err != nil {
 		return nil, err
+	}
+	if e.tls {
+		if _, err := c.StartTLS("localhost", nil, true); err != nil {
+			c.Close()
+			return nil, err
+		}
 	}
 	if !inside {
 		return c, nil
@@ -236,7 +314,11 @@ func (e *env) learnTag() (string, error) {
 		return "", err
 	}
 	defer c.Close()
-	c.Send([]byte("GET /probe HTTP/1.1\r\nHost: origin.test\r\nCase-Id: probe\r\nConnection: close\r\n\r\n"), nil)
+	target := "/probe"
+	if e.tls {
+		target = "http://origin.test/probe" // origin-form on a TLS listener means https
+	}
+	c.Send([]byte("GET "+target+" HTTP/1.1\r\nHost: origin.test\r\nCase-Id: probe\r\nConnection: close\r\n\r\n"), nil)
 	if _, err := c.ReadResponse("GET", 5*time.Second); err != nil {
 		return "", fmt.Errorf("probe: %w", err)
 	}
@@ -257,6 +339,12 @@ func (e *env) contacts() contact {
 	var c contact
 	for _, p := range e.peers() {
 		c.accepts += p.Accepts()
+		if p == e.up && e.upKind == "https" {
+			// a TLS upstream: the close_notify of an earlier case's tunnel may arrive at any time; a contact
+			// there shows as a new connection or a new request head (every message needs one of the two)
+			c.bytes += int64(len(p.Log()))
+			continue
+		}
 		c.bytes += p.BytesIn()
 	}
 	return c
@@ -373,6 +461,10 @@ func (e *env) runChain(ctx *core.Ctx, cc *chainCase) {
 
 	before := e.contacts()
 	upLogBefore := len(e.up.Log())
+	socksBefore := 0
+	if e.socks != nil {
+		socksBefore = len(e.socks.Requests())
+	}
 	c, err := e.open(e.mode == "mitm" && !cc.Connect)
 	if err != nil {
 		ctx.Crash("proxy accepts a client connection", "", cc, err.Error())
@@ -396,12 +488,12 @@ func (e *env) runChain(ctx *core.Ctx, cc *chainCase) {
 	if cc.Connect {
 		// a CONNECT that passed: upstream mode -> the upstream proxy saw a CONNECT; direct -> a TCP
 		// connection to the target; mitm -> intercepted (200, nothing contacted yet)
-		if e.mode == "upstream" {
+		if e.upKind == "http" || e.upKind == "https" {
 			peer, ex = e.findConnect(upLogBefore)
 		}
 		if res.Status == 200 {
 			tunnelled = true
-			if e.mode == "direct" || e.mode == "rules" {
+			if e.mode != "mitm" && (e.upKind == "" || e.upKind == "socks5") {
 				waitFor(func() bool { return e.contacts().accepts > before.accepts }, time.Second)
 			}
 		}
@@ -419,16 +511,44 @@ func (e *env) runChain(ctx *core.Ctx, cc *chainCase) {
 	minor := req.Minor
 	var modelKind string // "loop" | "fwd" | "other"
 	var modelVia []string
+	modelHead := false // CONNECT: the model sends a head to an upstream HTTP(S) proxy
+	mctx := reqmodel.Ctx{ClientIP: "127.0.0.1", Secure: e.mode == "mitm" || e.tls}
 	if cc.Connect {
+		// the modifier alone (Req.viaStep) …
 		a := strings.Fields(ask(ctx, "step", core.HexS(e.cfg.Tag), core.Itoa(minor), hexLines(lines)))
-		if a[0] == "loop" {
+		// … and the whole CONNECT path (Req.processConnect): modifier stack, dispatch by upstream scheme,
+		// the head written to an upstream HTTP(S) proxy
+		mcfg := e.cfg
+		mcfg.MITM = e.mode == "mitm"
+		full := askConnect(ctx, &mcfg, &mctx, &reqmodel.ConnectReq{Authority: req.Path, Minor: req.Minor, Fields: req.Fields})
+		ctx.Count("connect-model/" + strings.SplitN(full, ":", 3)[0])
+		switch {
+		case full == "refused-400-loop":
 			modelKind = "loop"
-		} else {
+			if a[0] != "loop" {
+				ctx.Disagree("Req.processConnect and Req.viaStep agree on a loop", cc, full, strings.Join(a, " "))
+			}
+		case strings.HasPrefix(full, "tunnel:"):
+			modelKind, modelHead = "fwd", true
+			f := strings.SplitN(full, ":", 3)
+			modelVia = core.UnHexList(f[2])
+			if a[0] == "loop" || strings.Join(modelVia, "\x00") != strings.Join(core.UnHexList(a[1]), "\x00") {
+				ctx.Disagree("the head Req.processConnect sends upstream carries what Req.viaStep produced", cc, full, strings.Join(a, " "))
+			}
+			if f[1] != e.upKind {
+				ctx.Disagree("upstream scheme the model dispatches the CONNECT to", cc, e.upKind, f[1])
+			}
+		case strings.HasPrefix(full, "tunnel-raw:"), full == "mitm":
 			modelKind = "fwd"
-			modelVia = core.UnHexList(a[1])
+			if a[0] == "loop" {
+				ctx.Disagree("Req.processConnect and Req.viaStep agree on a loop", cc, full, strings.Join(a, " "))
+			} else {
+				modelVia = core.UnHexList(a[1])
+			}
+		default:
+			modelKind = "other"
 		}
 	} else {
-		mctx := reqmodel.Ctx{ClientIP: "127.0.0.1", Secure: e.mode == "mitm"}
 		out := reqmodel.Ask(ctx.Model, &e.cfg, &mctx, req)
 		switch {
 		case out.Kind == "refused" && out.Why == "loop":
@@ -440,9 +560,9 @@ func (e *env) runChain(ctx *core.Ctx, cc *chainCase) {
 			modelKind = "fwd"
 			modelVia = out.Fields["via"]
 			wantPeer := e.origin
-			if out.HopKind == "proxy" {
+			if out.HopKind == "proxy" || out.HopKind == "tlsproxy" {
 				wantPeer = e.up
-			} else if e.mode == "mitm" {
+			} else if e.mode == "mitm" || (req.Absolute && req.Scheme == "https") || (!req.Absolute && e.tls) {
 				wantPeer = e.tlsOrig
 			}
 			if ex != nil && peer != wantPeer {
@@ -474,6 +594,10 @@ func (e *env) runChain(ctx *core.Ctx, cc *chainCase) {
 		switch {
 		case !forwarded:
 			ctx.Disagree("request passed by the model reaches its hop", cc, impl, "fwd via="+strings.Join(modelVia, " | "))
+		case cc.Connect && modelHead && ex == nil:
+			ctx.Disagree("a CONNECT forwarded to an upstream HTTP(S) proxy arrives there as a CONNECT head", cc, impl, "head via="+strings.Join(modelVia, " | "))
+		case cc.Connect && e.upKind == "socks5" && !e.socksAsked(socksBefore, req.Path):
+			ctx.Disagree("a CONNECT forwarded to a SOCKS5 upstream asks it for the CONNECT authority", cc, impl, "socks target "+req.Path)
 		case ex != nil && strings.Join(ex.Req.Values("Via"), "\x00") != strings.Join(modelVia, "\x00"):
 			ctx.Disagree("Via field lines at the next hop = Model.Req.viaStep", cc, impl, strings.Join(modelVia, " | "))
 		case res.Status != 200:
@@ -511,6 +635,17 @@ func (e *env) runChain(ctx *core.Ctx, cc *chainCase) {
 		clause := strings.TrimPrefix(verdict, "false ")
 		ctx.SpecFail(clause, "", cc, impl, fmt.Sprintf("chain class %s, Via lines sent %q", cls, lines))
 	}
+}
+
+// socksAsked: the SOCKS5 server received a request for target since the case began.
+func (e *env) socksAsked(from int, target string) bool {
+	rs := e.socks.Requests()
+	for i := from; i < len(rs); i++ {
+		if rs[i].Target == target {
+			return true
+		}
+	}
+	return false
 }
 
 // findConnect finds the CONNECT the upstream proxy received for this case (cases of one environment
@@ -557,9 +692,11 @@ func summarise(peer *rig.Peer, ex *rig.Exchange, res *rig.Msg, dAcc, dBytes int6
 type passThrough struct {
 	peer   *rig.Peer
 	target atomic.Value // string
+	tlsUp  atomic.Bool  // the target is a TLS listener: the relay speaks TLS to it (and, started by newPassThroughTLS, to its client)
 	limit  int64        // connections beyond this are dropped: a loop that is not detected stays bounded
 	mu     sync.Mutex
 	heads  [][]byte // client->target bytes of each connection (first 64 KiB)
+	gen    int      // bumped by reset: connections of earlier cases no longer record
 	n      atomic.Int64
 }
 
@@ -574,23 +711,48 @@ func newPassThrough(name string, limit int64) (*passThrough, error) {
 	return pt, nil
 }
 
+// newPassThroughTLS is a pass-through peer that terminates TLS (certificate conf) towards its client, so that
+// what travels over an https:// upstream-proxy link can be counted and read like a plain link.
+func newPassThroughTLS(name string, limit int64, conf *tls.Config) (*passThrough, error) {
+	pt := &passThrough{limit: limit}
+	pt.target.Store("")
+	p, err := rig.NewRawTLSPeer(name, conf, pt.serve)
+	if err != nil {
+		return nil, err
+	}
+	pt.peer = p
+	return pt, nil
+}
+
 func (pt *passThrough) serve(pc *rig.PeerConn) {
 	n := pt.n.Add(1)
 	if n > pt.limit {
 		return // dropped
 	}
-	addr, _ := pt.target.Load().(string)
-	up, err := net.DialTimeout("tcp", addr, 3*time.Second)
-	if err != nil {
-		return
-	}
-	defer up.Close()
+	// the connection is on record (possibly without a head) from the moment it is counted
 	idx := int(n - 1)
 	pt.mu.Lock()
+	gen := pt.gen
 	for len(pt.heads) <= idx {
 		pt.heads = append(pt.heads, nil)
 	}
 	pt.mu.Unlock()
+	addr, _ := pt.target.Load().(string)
+	var up net.Conn
+	up, err := net.DialTimeout("tcp", addr, 3*time.Second)
+	if err != nil {
+		return
+	}
+	defer func() { up.Close() }()
+	if pt.tlsUp.Load() {
+		tc := tls.Client(up, &tls.Config{InsecureSkipVerify: true, NextProtos: []string{"http/1.1"}})
+		tc.SetDeadline(time.Now().Add(5 * time.Second))
+		if err := tc.Handshake(); err != nil {
+			return
+		}
+		tc.SetDeadline(time.Time{})
+		up = tc
+	}
 	done := make(chan struct{}, 2)
 	go func() {
 		buf := make([]byte, 32<<10)
@@ -598,7 +760,8 @@ func (pt *passThrough) serve(pc *rig.PeerConn) {
 			k, err := pc.BR.Read(buf)
 			if k > 0 {
 				pt.mu.Lock()
-				if len(pt.heads[idx]) < 64<<10 {
+				// (a connection that outlives its case — a tunnel being torn down — is no longer on record)
+				if gen == pt.gen && idx < len(pt.heads) && len(pt.heads[idx]) < 64<<10 {
 					pt.heads[idx] = append(pt.heads[idx], buf[:k]...)
 				}
 				pt.mu.Unlock()
@@ -610,8 +773,8 @@ func (pt *passThrough) serve(pc *rig.PeerConn) {
 				break
 			}
 		}
-		if tc, ok := up.(*net.TCPConn); ok {
-			tc.CloseWrite()
+		if cw, ok := up.(interface{ CloseWrite() error }); ok {
+			cw.CloseWrite()
 		}
 		done <- struct{}{}
 	}()
@@ -631,6 +794,7 @@ func (pt *passThrough) reset() {
 	pt.n.Store(0)
 	pt.mu.Lock()
 	pt.heads = nil
+	pt.gen++
 	pt.mu.Unlock()
 }
 
@@ -1136,10 +1300,30 @@ type pools struct {
 	ctx   *core.Ctx
 	envs  map[string]*env
 	loops map[string]*loopEnv
+	// fleets are created outside the pool lock (each start-up probes its instances): one slot per key
+	fleets map[string]*fleetSlot
+}
+
+type fleetSlot struct {
+	once sync.Once
+	env  *fleetEnv
+	err  error
 }
 
 func newPools(ctx *core.Ctx) *pools {
-	return &pools{ctx: ctx, envs: map[string]*env{}, loops: map[string]*loopEnv{}}
+	return &pools{ctx: ctx, envs: map[string]*env{}, loops: map[string]*loopEnv{}, fleets: map[string]*fleetSlot{}}
+}
+
+func (p *pools) fleet(spec fleetSpec) (*fleetEnv, error) {
+	p.mu.Lock()
+	sl, ok := p.fleets[spec.key()]
+	if !ok {
+		sl = &fleetSlot{}
+		p.fleets[spec.key()] = sl
+	}
+	p.mu.Unlock()
+	sl.once.Do(func() { sl.env, sl.err = newFleetEnv(p.ctx, spec) })
+	return sl.env, sl.err
 }
 
 func (p *pools) env(mode string) (*env, error) {
@@ -1178,6 +1362,11 @@ func (p *pools) closeAll() {
 	for _, e := range p.loops {
 		e.close()
 	}
+	for _, sl := range p.fleets {
+		if sl.env != nil {
+			sl.env.close()
+		}
+	}
 }
 
 func (p *pools) run(ctx *core.Ctx, raw json.RawMessage) {
@@ -1210,8 +1399,34 @@ func (p *pools) run(ctx *core.Ctx, raw json.RawMessage) {
 			return
 		}
 		e.runLoop(ctx, &lc)
+	case "fleet":
+		var fc fleetCase
+		if err := json.Unmarshal(raw, &fc); err != nil || fc.Request == nil {
+			core.Fatalf("bad C18 fleet case: %v", err)
+		}
+		e, err := p.fleet(fc.fleetSpec)
+		if err != nil {
+			if errors.Is(err, errChainLost) {
+				ctx.SpecFail(clauseHop, "", fc, err.Error(), "")
+			} else {
+				ctx.Crash("proxy starts with a valid configuration and forwards a request without Via", "", fc, err.Error())
+			}
+			return
+		}
+		e.runFleet(ctx, &fc)
 	case "tag":
 		// the tag-shape clause is evaluated whenever an environment starts
+		var w struct {
+			Where string `json:"where"`
+		}
+		json.Unmarshal(raw, &w)
+		if f := strings.Split(w.Where, "/"); len(f) == 5 && f[0] == "fleet" {
+			// the assertions on a fleet's observed elements (shape, same on every listener, injective)
+			if _, err := p.fleet(fleetSpec{Topology: f[1], Links: strings.Split(f[2], "+"), Build: f[3], Entry: f[4]}); err != nil {
+				ctx.Crash("proxy starts with a valid configuration and forwards a request without Via", "", k, err.Error())
+			}
+			return
+		}
 		if _, err := p.env("direct"); err != nil {
 			ctx.Crash("proxy starts with a valid configuration", "", k, err.Error())
 		}
